@@ -197,6 +197,8 @@ def execute(scenario, ch):
         return _race(scenario, ch)
     sc = dict(scenario, tps=[dict(t) for t in scenario["tps"]], ref_depth=7)
     k, cases, ctx = snapcommon.run_cases(sc, ch)
+    if k.capped and not k.hang:
+        return common.result(k, [])     # cut off by the step / time budget: a half-done run, inconclusive
     viol = []
     cut_seen = 0
     if ctx.get("raised"):
